@@ -332,7 +332,12 @@ func varlinkE2E(cfg *runCfg, o *Obligation, dir string) (bool, string) {
 	if !e2eCache.done {
 		e2eCache.done = true
 		name := "varlink_e2e_test.go.tmpl"
+		race := false
 		switch cfg.prop {
+		case "C16":
+			// concurrent use of the service API and of client connections under the race detector
+			name = "varlink_race_test.go.tmpl"
+			race = true
 		case "C14", "C15", "C17", "C18", "C19":
 			// lifecycle / cancellation / address scenarios (oracles from C14, C15, C17, C18, C19)
 			name = "varlink_lifecycle_test.go.tmpl"
@@ -344,7 +349,26 @@ func varlinkE2E(cfg *runCfg, o *Obligation, dir string) (bool, string) {
 			src := strings.NewReplacer("@@OBLIGATION@@", o.Name).Replace(string(tmpl))
 			e2eCache.file = filepath.Join(dir, "varlink_e2e_"+cfg.prop+"_test.go")
 			os.WriteFile(e2eCache.file, []byte(src), 0o644)
-			e2eCache.out, e2eCache.err = runOverlayTest(cfg, "varlink", e2eCache.file, "TestVerifReplay", false)
+			e2eCache.out, e2eCache.err = runOverlayTest(cfg, "varlink", e2eCache.file, "TestVerifReplay", race)
+			if race {
+				// a report of the race detector is the failing run; keep the first library frames of each
+				var b strings.Builder
+				blocks := strings.Split(e2eCache.out, "WARNING: DATA RACE")
+				for i, blk := range blocks[1:] {
+					if i >= 3 {
+						break
+					}
+					var frames []string
+					for _, l := range strings.Split(blk, "\n") {
+						l = strings.TrimSpace(l)
+						if strings.HasPrefix(l, "github.com/varlink/go/varlink") && len(frames) < 2 {
+							frames = append(frames, l)
+						}
+					}
+					fmt.Fprintf(&b, "REPLAY-FAIL prop=C16 scenario=race-detector: DATA RACE between %s\n", strings.Join(frames, " and "))
+				}
+				e2eCache.out = b.String() + e2eCache.out
+			}
 		}
 	}
 	var rep strings.Builder
